@@ -1,4 +1,61 @@
-import Geo.Spec.Basic
+/-
+  C13 — quadric constructors produce the quadric of their defining data.
+-/
+import Geo.Gen.Curve
+import Geo.Proofs.Lemmas
+import Mathlib.Tactic.FieldSimp
 namespace Geo
-theorem C13_placeholder : (1 : Nat) = 1 := rfl
+open Spec
+
+section
+variable {K : Type} [CommRing K]
+
+/-- quadratic form of the conic `m + mᵀ` built by `Conic.from_points` (regenerated from geometer/curve.py) -/
+def c5Form (a b c d e p : Nat → K) : K :=
+  sumRange 3 fun i => sumRange 3 fun j =>
+    p i * (Gen.c5_m (Gen.c5_ace a b c d e) (Gen.c5_bde a b c d e) (Gen.c5_ade a b c d e) (Gen.c5_bce a b c d e) a b c d i j
+         + Gen.c5_m (Gen.c5_ace a b c d e) (Gen.c5_bde a b c d e) (Gen.c5_ade a b c d e) (Gen.c5_bce a b c d e) a b c d j i) * p j
+
+/-- **Conic.from_points contains its five points** — for all coordinate vectors (the first four because each lies on a
+    line of both degenerate conics, the fifth because the two products of four brackets cancel) -/
+theorem T13_from_points_contains (a b c d e : Nat → K) :
+    c5Form a b c d e a = 0 ∧ c5Form a b c d e b = 0 ∧ c5Form a b c d e c = 0 ∧ c5Form a b c d e d = 0 ∧
+    c5Form a b c d e e = 0 := by
+  simp only [c5Form, Gen.c5_m, Gen.c5_ace, Gen.c5_bde, Gen.c5_ade, Gen.c5_bce, det3, cross, sumRange]
+  refine ⟨?_, ?_, ?_, ?_, ?_⟩ <;> ring
+
+end
+
+section
+variable {F : Type} [Field F]
+
+/-- matrix assembled by `Ellipse.__init__` (before the positive normalisation factor): rows
+    (vr², 0, −vr²cx), (0, hr², −hr²cy), (−vr²cx, −hr²cy, vr²cx² + hr²cy² − hr²vr²) -/
+def ellipseForm (cx cy hr vr x y : F) : F :=
+  vr ^ 2 * x ^ 2 + hr ^ 2 * y ^ 2 + 2 * (-(vr ^ 2 * cx)) * x + 2 * (-(hr ^ 2 * cy)) * y
+    + (vr ^ 2 * cx ^ 2 + hr ^ 2 * cy ^ 2 - hr ^ 2 * vr ^ 2)
+
+/-- the ellipse contains exactly the Cartesian locus `((x−cx)/hr)² + ((y−cy)/vr)² = 1` -/
+theorem T13_ellipse_locus (cx cy hr vr x y : F) (hh : hr ≠ 0) (hv : vr ≠ 0) :
+    ellipseForm cx cy hr vr x y = 0 ↔ ((x - cx) / hr) ^ 2 + ((y - cy) / vr) ^ 2 = 1 := by
+  unfold ellipseForm
+  constructor
+  · intro h
+    field_simp
+    linear_combination h
+  · intro h
+    field_simp at h
+    linear_combination h
+
+/-- sphere: `|x − c|² = r²`, and `center` / `radius²` are read back from the matrix entries
+    (`c = −m[:-1,-1]/m[0,0]`, `r² = c·c − m[-1,-1]/m[0,0]`) -/
+theorem T13_sphere_locus (c0 c1 c2 r x y z : F) :
+    (x ^ 2 + y ^ 2 + z ^ 2 + 2 * (-c0) * x + 2 * (-c1) * y + 2 * (-c2) * z + (c0 ^ 2 + c1 ^ 2 + c2 ^ 2 - r ^ 2) = 0
+      ↔ (x - c0) ^ 2 + (y - c1) ^ 2 + (z - c2) ^ 2 = r ^ 2) ∧
+    ((-c0) ^ 2 + (-c1) ^ 2 + (-c2) ^ 2 - (c0 ^ 2 + c1 ^ 2 + c2 ^ 2 - r ^ 2) = r ^ 2) := by
+  constructor
+  · constructor <;> intro h <;> linear_combination h
+  · ring
+
+end
 end Geo
